@@ -119,13 +119,110 @@ func runC17Core(c *Ctx, withBackoff bool) {
 		}
 		perCall = cv
 	}
+	// ... or the fail-over loop lives in a function that Sign hands the endpoint list and a closure making the
+	// per-endpoint call (a higher-order tryEndpoints(endpoints, post)): the loop rules are read in that function, the
+	// attempt being the call of its function parameter
+	loopFn := sign
+	var att *ssa.Call       // the attempt inside the loop
+	var loopSite *ssa.Call  // Sign's call of the loop function (callback form)
+	var attClo *ssa.Function
+	if perCall == nil {
+		for _, ins := range instrsOf(sign) {
+			mc, ok := ins.(*ssa.MakeClosure)
+			if !ok {
+				continue
+			}
+			clo, _ := mc.Fn.(*ssa.Function)
+			if clo == nil {
+				continue
+			}
+			var inner *ssa.Call
+			for _, call := range callsIn(clo) {
+				if cv, ok := call.(*ssa.Call); ok {
+					if callee := cv.Call.StaticCallee(); callee != nil && recvNamed(callee) == owner && errorResultIndex(callee) >= 0 {
+						inner = cv
+					}
+				}
+			}
+			if inner == nil {
+				continue
+			}
+			// the closure hands back that call's results as they are
+			handsBack := true
+			for _, r := range liveReturns(clo) {
+				for k, res := range r.Results {
+					var want ssa.Value = inner
+					if inner.Call.Signature().Results().Len() > 1 {
+						want = extractOf(inner, k)
+					}
+					if throughCell(strip(res)) != want {
+						handsBack = false
+					}
+				}
+			}
+			if !handsBack {
+				continue
+			}
+			for _, call := range callsIn(sign) {
+				site, ok := call.(*ssa.Call)
+				if !ok {
+					continue
+				}
+				h := site.Call.StaticCallee()
+				if h == nil || !w.InRepo(h) || h.Blocks == nil || len(site.Call.Args) != len(h.Params) {
+					continue
+				}
+				for i, a := range site.Call.Args {
+					if w.canon(sign, a) != ssa.Value(mc) {
+						continue
+					}
+					var dyns []*ssa.Call
+					only := true
+					if refs := h.Params[i].Referrers(); refs != nil {
+						for _, r := range *refs {
+							switch x := r.(type) {
+							case *ssa.DebugRef:
+							case *ssa.Call:
+								if x.Call.Value == ssa.Value(h.Params[i]) {
+									dyns = append(dyns, x)
+								} else {
+									only = false
+								}
+							default:
+								only = false
+							}
+						}
+					}
+					if only && len(dyns) == 1 {
+						perCall, att, loopFn, loopSite, attClo = inner, dyns[0], h, site, clo
+					}
+				}
+			}
+		}
+	}
 	if perCall == nil {
 		c.Unresolved("R1.order", "per-endpoint call in Sign")
 		return
 	}
+	if att == nil {
+		att = perCall
+	}
 	per := perCall.Call.StaticCallee()
 	c.Saw(per)
+	c.Saw(loopFn)
 	args := perCall.Call.Args
+	if loopSite != nil {
+		// the endpoint the closure passes on is its own parameter; what the loop feeds it is judged below
+		args = nil
+		for _, a := range perCall.Call.Args {
+			if p, isParam := throughCell(strip(a)).(*ssa.Parameter); isParam && p.Parent() == attClo {
+				if j := paramIndex(p); j >= 0 && j < len(att.Call.Args) {
+					a = att.Call.Args[j]
+				}
+			}
+			args = append(args, a)
+		}
+	}
 	// endpoint argument: element of the receiver's endpoint slice at a forward range index
 	okOrder := false
 	var endpointField string
@@ -139,6 +236,11 @@ func runC17Core(c *Ctx, withBackoff bool) {
 			continue
 		}
 		base := w.Expr(ia.X)
+		if p, isParam := throughCell(strip(ia.X)).(*ssa.Parameter); isParam && loopSite != nil && p.Parent() == loopFn {
+			if j := paramIndex(p); j >= 0 && j < len(loopSite.Call.Args) {
+				base = w.ExprIn(sign, loopSite.Call.Args[j])
+			}
+		}
 		if strings.HasPrefix(base, "p0.") && isForwardRangeIndex(ia.Index) {
 			okOrder = true
 			endpointField = strings.TrimPrefix(base, "p0.")
@@ -166,7 +268,7 @@ func runC17Core(c *Ctx, withBackoff bool) {
 	passed := false
 	perReqParam := -1
 	for i, a := range args {
-		if reqIdx >= 0 && a == ssa.Value(sign.Params[reqIdx]) {
+		if reqIdx >= 0 && (a == ssa.Value(sign.Params[reqIdx]) || (loopSite != nil && w.ExprIn(sign, a) == "p"+itoa(reqIdx))) {
 			passed = true
 			perReqParam = i
 		}
@@ -176,7 +278,7 @@ func runC17Core(c *Ctx, withBackoff bool) {
 	errIdx := errorResultIndex(per)
 	var errv ssa.Value
 	exts := map[int]ssa.Value{}
-	if refs := perCall.Referrers(); refs != nil {
+	if refs := att.Referrers(); refs != nil {
 		for _, r := range *refs {
 			if ex, ok := r.(*ssa.Extract); ok {
 				exts[ex.Index] = ex
@@ -186,11 +288,48 @@ func runC17Core(c *Ctx, withBackoff bool) {
 			}
 		}
 	}
-	f := w.Facts(sign)
+	f := w.Facts(loopFn)
 	nSuccessRet := 0
-	for _, r := range liveReturns(sign) {
+	if loopSite != nil {
+		// Sign returns what the loop function returns
+		for _, r := range liveReturns(sign) {
+			if !ReachableAvoiding(loopSite, nil)(r) {
+				continue
+			}
+			same := len(r.Results) == loopFn.Signature.Results().Len()
+			for k, res := range r.Results {
+				if same && throughCell(strip(res)) != ssa.Value(extractOf(loopSite, k)) {
+					same = false
+				}
+			}
+			c.Check(same, "R1.order", "Sign|hands back the results of "+shortFn(loopFn), w.Pos(r.Pos()), "the loop function's results as they are", "Sign does not return the fail-over loop's results unchanged")
+		}
+	}
+	for _, r := range liveReturns(loopFn) {
 		isNil, known := f.KnownNil(r.Block(), errv)
 		if errv == nil || !known || !isNil {
+			// a `break` out of the loop joined with its exhaustion: the edges into the return block on which the error
+			// returned is this attempt's, known to be nil there, carry this attempt's certificates and comments
+			if ePhi, isPhi := strip(r.Results[len(r.Results)-1]).(*ssa.Phi); isPhi && errv != nil && ePhi.Block() == r.Block() {
+				for i, e := range ePhi.Edges {
+					if throughCell(strip(e)) != errv {
+						continue
+					}
+					ef := w.factsOnEdge(r.Block().Preds[i], r.Block())
+					if n, k := f.knownNilIn(ef, errv); !k || !n {
+						continue
+					}
+					nSuccessRet++
+					okRes := len(r.Results) == 3
+					for k := 0; k < 2 && okRes; k++ {
+						kp, isKP := strip(r.Results[k]).(*ssa.Phi)
+						if !isKP || kp.Block() != r.Block() || throughCell(strip(kp.Edges[i])) != exts[k] {
+							okRes = false
+						}
+					}
+					c.Check(okRes, "R1.order", "Sign|success edge returns the endpoint's results", w.Pos(r.Pos()), "returns the successful endpoint's certificates and comments", "on the err==nil edge the successful attempt's certificates/comments are not what is returned")
+				}
+			}
 			continue
 		}
 		nSuccessRet++
@@ -199,14 +338,14 @@ func runC17Core(c *Ctx, withBackoff bool) {
 		// no further per-endpoint call can follow: the block ends in Return, nothing to check beyond being a return
 	}
 	// the err==nil edge must not flow back into the loop: every block with the fact err==nil must not reach perCall again
-	for _, b := range sign.Blocks {
+	for _, b := range loopFn.Blocks {
 		if errv == nil {
 			break
 		}
 		if isNil, known := f.KnownNil(b, errv); known && isNil {
 			if len(b.Instrs) > 0 {
 				reach := ReachableAvoiding(b.Instrs[0], nil)
-				if reach(perCall) {
+				if reach(att) {
 					c.Bad("R1.order", "Sign|later endpoint contacted after a success", w.Pos(b.Instrs[0].Pos()), "from the err==nil edge control can reach the per-endpoint call again")
 				}
 			}
@@ -215,8 +354,8 @@ func runC17Core(c *Ctx, withBackoff bool) {
 	c.Floor("R1.order", nSuccessRet, 1, "return on the success edge of the per-endpoint call")
 
 	// R2: may-nil returns need the fact err == nil of a per-endpoint call
-	errRes := errorResultIndex(sign)
-	for _, r := range liveReturns(sign) {
+	errRes := errorResultIndex(loopFn)
+	for _, r := range liveReturns(loopFn) {
 		for _, lf := range w.Leaves(r.Results[errRes], r) {
 			if w.NonNil(lf.Val, lf.Facts) {
 				c.Ok("R2.nonnil", "Sign|returned error "+w.Short(lf.Val), w.Pos(r.Pos()), "certainly non-nil")
@@ -634,6 +773,15 @@ func cloneOfField(w *World, h *ssa.Function) string {
 			}
 			out = fld
 		}
+	}
+	return out
+}
+
+// instrsOf: every instruction of fn, block by block.
+func instrsOf(fn *ssa.Function) []ssa.Instruction {
+	var out []ssa.Instruction
+	for _, b := range fn.Blocks {
+		out = append(out, b.Instrs...)
 	}
 	return out
 }
